@@ -34,7 +34,9 @@ CONSTANTS NB,        \* bars are 1..NB (bar b is created by the b-th Add in prog
           MaxTicks,  \* refresh periods the scheduler may let pass (bounds the graph)
           Fault,     \* [kind, b, at]: the at-th Fill ("fill") or extender call ("ext") of bar b, or the at-th Write on
                      \* the output ("out"), returns an error (at = 0: never)
-          Refresh    \* "auto" | "manual" | "none"
+          Refresh,   \* "auto" | "manual" | "none"
+          UWG        \* WithWaitGroup: every client but the first is a worker of a user wait group and calls Done
+                     \* once - before it waits for the container itself, or when its program ends
 
 Bars    == 1..NB
 Clients == DOMAIN Prog
@@ -61,7 +63,9 @@ CtInit == [pc |-> "idle", b |-> NoBar, cmd |-> "none", sync |-> FALSE, then |-> 
            v |-> 0, lazy |-> FALSE]                         \* arguments of a pending priority change      \* close(iter) / close(iterPop) seen by the next receive
 
 Init0 ==
-  [cl    |-> [c \in Clients |-> [pc |-> 1, st |-> IF Len(Prog[c]) = 0 THEN "done" ELSE "gate", k |-> 0]],
+  [cl    |-> [c \in Clients |-> [pc |-> 1, st |-> IF Len(Prog[c]) = 0 THEN "done" ELSE "gate", k |-> 0,
+                               wd |-> (Len(Prog[c]) = 0)]],      \* wd: the worker has called Done
+   uwg   |-> IF UWG THEN Cardinality({c \in Clients : c # 1 /\ Len(Prog[c]) > 0}) ELSE 0,
    ct    |-> CtInit,
    hm    |-> [pc |-> "idle", req |-> NoReq, i |-> 0, order |-> <<>>, e |-> 0],
    hmbuf |-> <<>>,             \* requests in the channel buffer
@@ -263,10 +267,12 @@ ApplyBarOp(st, b, op) ==
     [] OTHER -> st
 
 (* the client's call returns: next call or done *)
+WorkerDone(st, c) == IF UWG /\ c # 1 /\ ~st.cl[c].wd THEN [st EXCEPT !.cl[c].wd = TRUE, !.uwg = @ - 1] ELSE st
 Return(st, c) ==
-  LET n == st.cl[c].pc + 1  op == Prog[c][st.cl[c].pc] IN
-  [st EXCEPT !.cl[c].pc = n, !.cl[c].st = IF n > Len(Prog[c]) THEN "done" ELSE "gate",
-             !.added = IF op.op = "add" THEN @ \cup {op.b} ELSE @]
+  LET n == st.cl[c].pc + 1  op == Prog[c][st.cl[c].pc]
+      st1 == [st EXCEPT !.cl[c].pc = n, !.cl[c].st = IF n > Len(Prog[c]) THEN "done" ELSE "gate",
+                        !.added = IF op.op = "add" THEN @ \cup {op.b} ELSE @]
+  IN IF n > Len(Prog[c]) THEN WorkerDone(st1, c) ELSE st1
 
 (* --- clients --- *)
 MicroClient(st, c) ==
@@ -285,7 +291,7 @@ MicroClient(st, c) ==
        [] op.op = "cancel" ->    \* the context given to NewWithContext is cancelled
             {Return([st EXCEPT !.pctx = TRUE, !.done = IF Refresh = "none" THEN TRUE ELSE @,
                                !.bar = [b \in Bars |-> [@[b] EXCEPT !.ctx = TRUE]]], c)}
-       [] op.op = "wait"  -> {[st EXCEPT !.cl[c].st = "waitbwg"]}
+       [] op.op = "wait"  -> {[WorkerDone(st, c) EXCEPT !.cl[c].st = "waitbwg"]}
        [] op.op = "shutdown" -> {[st EXCEPT !.cl[c].st = "cancel_gate"]}
        [] op.op = "refresh" -> {Return([st EXCEPT !.mreq = @ + 1], c)}
        [] OTHER -> {Return(st, c)}
@@ -294,7 +300,10 @@ MicroClient(st, c) ==
      \* p.cancel(): the container context and every bar's child context
      {[st EXCEPT !.pctx = TRUE, !.done = IF Refresh = "none" THEN TRUE ELSE @,
                  !.bar = [b \in Bars |-> [@[b] EXCEPT !.ctx = TRUE]], !.cl[c].st = "waitpwg"]}
-  ELSE IF C.st = "waitpwg" /\ st.ctgone THEN {Return(st, c)}
+  ELSE IF C.st = "waitpwg" /\ st.ctgone THEN
+     \* Wait (not Shutdown) finally waits for the user wait group
+     IF UWG /\ Op(c, st).op = "wait" THEN {[st EXCEPT !.cl[c].st = "waituwg"]} ELSE {Return(st, c)}
+  ELSE IF C.st = "waituwg" /\ st.uwg = 0 THEN {Return(st, c)}
   ELSE IF C.st = "barwait" /\ st.bar[Op(c, st).b].pc = "gone" THEN {Return(st, c)}
   ELSE IF C.st = "get" /\ st.bar[Op(c, st).b].pc = "gone" THEN {Return(st, c)}
   ELSE {}
